@@ -53,8 +53,9 @@ CLAIMED = {
          "NOT covered, hence not decided: everything that involves more than one replica — agreement ('every replica installs the same value for each version', 'at most one proposer wins each version'), the proposer side (PreCommit/doPreCommit/Commit/rollback/broadcast with majorities, backoff, timeouts), progress, transports (LocalReplicaHandle/RPCReplicaHandle), Abort/ReadValue of the resource (ReadValue writes criticalSectionState while holding only the read lock — noted in DESIGN.md section 7, not claimed as a defect), Close. "
          "Assumed: versions stay below 2^63-1; logging/timing helpers have no effect on the protected state.",
          "contract-based deductive verification: strict monitor, two-state postconditions relative to lock acquisition, abstract-value equality of TLA+ values (C05), inlining with statically resolved branches, z3/cvc5"),
- "C12": ("Deductive proof for the grow-only counter: Init/Read/Write/Merge against the partial-map view (Merge = pointwise max on the union of keys, Write adds to one slot, Read = wrapped sum), and, as pure lemmas over those contracts, that Merge is commutative, associative and idempotent and Write (non-negative, no overflow) is an inflation.",
-         "NOT covered: AWORSet, LWWSet and their gob pairs (not decided by this check; two genuine defects in them are recorded in DESIGN.md section 4 from probes, not from this check); the sum over an unordered map is axiomatised by its insert step; counts are int32 with wrap-around modelled.",
+ "C12": ("Deductive proof for the grow-only counter: Init/Read/Write/Merge against the partial-map view (Merge = pointwise max on the union of keys, Write adds to one slot, Read = wrapped sum), and, as pure lemmas over those contracts, that Merge is commutative, associative and idempotent and Write (non-negative, no overflow) is an inflation. "
+         "For the last-writer-wins set: Init/isIn/Read/Merge against two partial maps element -> instant (an element is in the set iff it has an add not older than its latest remove; Merge keeps per element the later add and the later remove — this obligation failed on the pinned tree: genuine defect, fixed in 85beb576), the merge laws up to equal instants, and that what is read depends only on the instants.",
+         "NOT covered: AWORSet (not decided by this check; DESIGN.md section 4 records from a probe that its Merge is not associative on reachable states), LWWSet.Write (stamps the wall clock unconditionally), and the gob pairs; time.Time is compared through an abstract instant; the sum over an unordered map is axiomatised by its insert step; counts are int32 with wrap-around modelled.",
          "contract-based deductive verification: functional contracts + semilattice lemmas, z3/cvc5"),
  "C13": ("Deductive proof, thread-modular over the monitor stateLock (strict: every read/write of value, oldValue, hasOldValue is an obligation 'the lock is held', shared for reads, exclusive for writes; the invariant 'snapshot below working value' is re-established at every unlock), that the CRDT resource never loses state: "
          "the stable value (snapshot while a section is in flight, else the value) only grows in the semilattice order across every locked region; a state received from a peer is inside the stable value once the merger has processed it (this obligation failed on the pinned tree: genuine defect, fixed in 669cc72f); writes of the section in flight change only the working value, Abort restores exactly the stable value, Commit makes the working value stable; "
